@@ -12,6 +12,7 @@
         -> one observation per attempt, joined by " || "
     MANIFEST := <nl> {DREF size} DREF size      DREF := e | b | <64 hex>
     ATTEMPT  := ms <n> {REPLY} tok <n> {0|1} ls <n> {dig head <n> {REPLY} direct <n> {REPLY} chunks <np> {<n> {CHUNK}}}
+                cancel <none | start | verifying k | writing>      (the caller cancels at that progress callback)
     REPLY    := pass <served|badjson | n | redirect|redirect200|noloc|noloc307|noloc301|badstatus[301|303|308]|badloc|redirectdead>
                 | neterr | unauth <hex> | notfound | status | follow
     CHUNK    := neterr | body <honest|full|junk hex|flip i> <cut: -|n> <eof|ueof|reset|stall>
@@ -189,7 +190,15 @@ def pAttempt : TP Scripts := do
   let ts ← listOf (do let n ← nat; pure (n != 0))
   expect "ls"
   let ls ← listOf pLScript
-  pure ⟨ms, ts, ls⟩
+  expect "cancel"
+  let c ← tok
+  let cp ← (match c with
+    | "none" => pure none
+    | "start" => pure (some CancelPoint.atStart)
+    | "writing" => pure (some CancelPoint.writing)
+    | "verifying" => do return some (CancelPoint.verifying (← nat))
+    | _ => failure : TP (Option CancelPoint))
+  pure ⟨ms, ts, ls, cp⟩
 
 def pPart : TP Part := do
   let o ← nat
